@@ -15,6 +15,8 @@ A. schedules replayed step by step on a real pingStatusCache (injected clock, de
 B. sequential histories through the public path (ResolveStatusResponseWithGeneration, ResetPingCache, real
    singleflight, real clock) with loopback status backends; the model runs each request's labels to completion:
   pnew <nb> | mode i 0/1 | preset | sleep ms | ping <routeGen> <proto> <ttlms> <fallback 0/1> <i,j,k>
+     candidates 0..nb-1 are listeners that accept (up: answer, down: close at once); candidate nb is a black hole (the dial
+     runs into dialTimeout: a context.DeadlineExceeded-class error), candidate nb+1 a closed port (connection refused)
      output of ping: `backend <i> <n>` (status of backend i, its n-th accepted connection overall) / `fallback` /
      `error`, followed by ` | f=<connections accepted so far>`
 
@@ -244,8 +246,11 @@ def runLabels (s : Sys) (ls : List Label) : Sys := ls.foldl (fun s l => (step s 
 /-- one status request for backend `i` run to completion; returns the system, the result, the new fetch count -/
 def seqRequest (s : Sys) (p : PubSt) (i : Nat) (proto : Int) (rg : Nat) (ttl : Int) : Sys × Option Res × PubSt :=
   let up := p.modes[i]?.getD false
+  -- backends beyond the `nb` listeners of `pnew nb` never accept a connection (index nb: the dial runs into its
+  -- timeout; index nb+1: the dial is refused): always failing, and invisible to the accept counter
+  let acc := if i < p.modes.length then 1 else 0
   if ttl ≤ 0 then   -- cache disabled: direct fetch
-    (s, if up then some ⟨1000000 + p.fetches + 1, true⟩ else none, { p with fetches := p.fetches + 1 })
+    (s, if up then some ⟨1000000 + p.fetches + 1, true⟩ else none, { p with fetches := p.fetches + acc })
   else
     let r := s.reqs.length
     let s := { s with reqs := s.reqs ++ [mkReq (backendKey i proto rg) ttl true] }
@@ -260,7 +265,7 @@ def seqRequest (s : Sys) (p : PubSt) (i : Nat) (proto : Int) (rg : Nat) (ttl : I
         let s := runLabels s [.join r, .recheck r]
         let (s, p) := match flightOf s r with
           | some f => (match f.pc with
-            | .loading lid => (runLabels s [.store r up], { p with fetches := p.fetches + 1, lidFetch := p.lidFetch ++ [(lid, p.fetches + 1)] })
+            | .loading lid => (runLabels s [.store r up], { p with fetches := p.fetches + acc, lidFetch := p.lidFetch ++ [(lid, p.fetches + 1)] })
             | _ => (s, p))
           | none => (s, p)
         let s := runLabels s [.finish r]
